@@ -145,7 +145,8 @@ Definition pinv (G : gst) (t : thr) : Prop :=
   | R0 last | R1 last | R2 last | R3 last _ | R4 last | R5 last => cinv G last
   | R6 last tr => cinv G last /\ last <= tr <= now G /\ wr_ok G tr
   | R7 last => cinv G last /\ cend G < cur G
-  | R8 _ | RDone | S0 | S1 | S2 | S3 | S4 | S5 _ | SDone => True
+  | R8 last => last <= now G <= last + period + lag
+  | RDone | S0 | S1 | S2 | S3 | S4 | S5 _ | SDone => True
   end.
 
 Definition tinv (G : gst) (j : nat) (t : thr) : Prop :=
@@ -278,6 +279,17 @@ Proof.
         eapply Hne3; eauto.
       * right. lia.
 Qed.
+
+End Inv.
+
+(* ---------- every atomic action preserves the invariant ---------- *)
+Section Steps.
+Variables period lag : Z.
+Hypothesis Hper : 0 <= period.
+Hypothesis Hlag : 0 <= lag.
+Notation tstepF := (tstep true period).
+Notation stepF := (step true period lag).
+Notation runF := (run true period lag).
 
 Lemma active_cinv G x : active x = true -> pinv period lag G x -> exists last, cinv period lag G last.
 Proof.
@@ -489,7 +501,7 @@ Proof.
     destruct Hp as ((Hb & Hf & Hs) & Hlt).
     inversion Hst; subst; clear Hst.
     gen HI Hi; [gch Hmu| |nosp| | |].
-    + split; [exact Hh|]. exact I.
+    + split; [exact Hh|]. cbn [pinv]; sg. exact Hb.
     + unfold upper, set_running in *; sg. destruct (start (gs s)); [exact Hup|congruence].
     + cbn. discriminate.
     + intros _. right. left. cbn. lia.
@@ -530,4 +542,102 @@ Proof.
   - discriminate.
 Qed.
 
-End Inv.
+Lemma pinv_tick G t dt :
+  pinv period lag G t -> 0 <= dt -> may_pass period lag (now G + dt) t = true ->
+  pinv period lag (set_now G (now G + dt)) t.
+Proof.
+  intros Hp Hd Hm. unfold may_pass in Hm.
+  destruct t; cbn [pinv due] in *;
+    unfold bnd, cinv, fresh, elow, eupL, eup, wr_ok in *; sg; try tauto;
+    repeat match goal with H : _ /\ _ |- _ => destruct H end; repeat split; auto; try lia.
+Qed.
+
+Lemma inv_tick s dt :
+  Inv period lag s -> 0 <= dt ->
+  forallb (may_pass period lag (now (gs s) + dt)) (ths s) = true ->
+  Inv period lag (mkSt (set_now (gs s) (now (gs s) + dt)) (ths s)).
+Proof.
+  intros HI Hd Hall. rewrite forallb_forall in Hall.
+  constructor; sg.
+  - intros j t Hj. destruct (i_thr _ _ _ HI _ _ Hj) as [Hh Hp]. split; [exact Hh|].
+    apply pinv_tick; auto. apply Hall. eapply nth_error_In; eauto.
+  - pose proof (i_up _ _ _ HI) as Hup. unfold upper in *; sg.
+    destruct (start (gs s)); [|exact Hup]. split; [lia|tk].
+  - apply (i_cur0 _ _ _ HI).
+  - apply (i_mu _ _ _ HI).
+  - apply (i_run _ _ _ HI).
+  - apply (i_stop _ _ _ HI).
+Qed.
+
+(* a new goroutine that does not hold the lock and whose pc invariant holds *)
+Lemma inv_spawn s t :
+  Inv period lag s -> holds t = false -> pinv period lag (gs s) t ->
+  Inv period lag (mkSt (gs s) (ths s ++ [t])).
+Proof.
+  intros HI Hh Hp. constructor; sg.
+  - intros j x Hj. destruct (Nat.lt_ge_cases j (length (ths s))) as [Hlt|Hge].
+    + rewrite nth_error_app1 in Hj by exact Hlt. apply (i_thr _ _ _ HI _ _ Hj).
+    + rewrite nth_error_app2 in Hj by exact Hge.
+      destruct (j - length (ths s))%nat as [|k] eqn:Ek; [|destruct k; discriminate Hj].
+      inversion Hj; subst; clear Hj. split; [|exact Hp]. rewrite Hh. split; [discriminate|].
+      intros Hm. apply (i_mu _ _ _ HI) in Hm. lia.
+  - apply (i_up _ _ _ HI).
+  - apply (i_cur0 _ _ _ HI).
+  - intros j Hj. apply (i_mu _ _ _ HI) in Hj. rewrite app_length. lia.
+  - intros Hr. destruct (i_run _ _ _ HI Hr) as (j & x & Hj & Hx). exists j, x. split; [|exact Hx].
+    rewrite nth_error_app1 by (eapply nth_error_lt; eauto). exact Hj.
+  - intros Hr. destruct (i_stop _ _ _ HI Hr) as [(j & d & t0 & e & Hj)|Hle]; [left|right; exact Hle].
+    exists j, d, t0, e. rewrite nth_error_app1 by (eapply nth_error_lt; eauto). exact Hj.
+Qed.
+
+Lemma gchg_refl i G : gchg i G G.
+Proof. unfold gchg. repeat split; auto; try lia. intros [X|[X|[X|X]]]; congruence. Qed.
+
+Lemma inv_step s a s' : Inv period lag s -> stepF s a = Some s' -> Inv period lag s'.
+Proof.
+  intros HI Hst. destruct a; cbn [step] in Hst.
+  - destruct (0 <=? dt) eqn:Ed; [|discriminate]. cbn [andb] in Hst.
+    destruct (forallb _ _) eqn:Ef; [|discriminate]. inversion Hst; subst; clear Hst.
+    apply inv_tick; auto. lia.
+  - inversion Hst; subst; clear Hst. apply inv_spawn; auto. cbn [pinv]. unfold bnd. lia.
+  - inversion Hst; subst; clear Hst. apply inv_spawn; auto. exact I.
+  - destruct (nth_error (ths s) i) as [t|] eqn:Hi; [|discriminate].
+    destruct (tstepF i (gs s) t) as [[[G' t'] sp]|] eqn:Ht; [|discriminate].
+    inversion Hst; subst; clear Hst. eapply inv_tstep; eauto.
+  - destruct (nth_error (ths s) i) as [t|] eqn:Hi; [|discriminate].
+    destruct t; try discriminate. inversion Hst; subst; clear Hst.
+    destruct (i_thr _ _ _ HI _ _ Hi) as [Hh Hp].
+    rewrite <- (app_nil_r (upd _ _ _)).
+    eapply (inv_step_gen period lag Hper Hlag _ _ _ _ _ _ HI Hi).
+    + apply gchg_refl.
+    + split; [exact Hh | exact I].
+    + intros k y Hy; destruct k; discriminate Hy.
+    + apply (i_up _ _ _ HI).
+    + intros Hr; left; split; [exact Hr | cbn; intros; discriminate].
+    + intros Hr; right; right; repeat split; auto; discriminate.
+Qed.
+
+Lemma inv_init : Inv period lag init.
+Proof.
+  constructor; cbn.
+  - intros j t Hj. destruct j; discriminate.
+  - repeat split.
+  - lia.
+  - discriminate.
+  - discriminate.
+  - intros _. right. lia.
+Qed.
+
+Lemma run_with_inv ok s l s' :
+  Inv period lag s -> run_with true period lag ok s l = Some s' -> Inv period lag s'.
+Proof.
+  revert s. induction l as [|a l IH]; intros s HI Hr; cbn [run_with] in Hr.
+  - inversion Hr; subst; exact HI.
+  - destruct (ok s a); [|discriminate]. destruct (stepF s a) as [s1|] eqn:E; [|discriminate].
+    eapply IH; [|exact Hr]. eapply inv_step; eauto.
+Qed.
+
+Lemma reach_inv l s : runF init l = Some s -> Inv period lag s.
+Proof. apply run_with_inv, inv_init. Qed.
+
+End Steps.
